@@ -299,6 +299,12 @@ class World:
                 # the Location as a whole is a usable URL is C16's question)
                 name = urllib.parse.unquote(loc.rsplit("/", 1)[-1])
                 if name:
+                    if name in col.members:
+                        # add-member creates a *new* member: a Location that names an existing one means that one was replaced
+                        s.note["replaced_existing"] = name
+                        self.res.violation("post/add-member-replaced-an-existing-member",
+                                           f"POST {self.url(colpath)} answered {s.status} with Location {loc!r}: {name!r} was a member before (token {col.members[name].token}); "
+                                           f"add-member must create a new resource", {"history_tail": self.history_tail(12)}) if hasattr(self, "res") and self.res is not None else None
                     self._apply_put(col, name, ctype_for(name), body, token, uid, None)
                     s.note["name"] = name
         self.notify(s, r)
